@@ -38,6 +38,7 @@
 #include "llvm/Support/SourceMgr.h"
 #include "llvm/Support/raw_ostream.h"
 #include "llvm/Transforms/Utils/LCSSA.h"
+#include "llvm/Transforms/Utils/Local.h"
 #include "llvm/Transforms/Utils/LoopSimplify.h"
 #include "llvm/Transforms/Utils/Mem2Reg.h"
 #include <map>
@@ -677,8 +678,20 @@ struct Dumper {
     FPM.addPass(PromotePass());
     FPM.addPass(LoopSimplifyPass());
     FPM.addPass(LCSSAPass());
+    FunctionPassManager FPM0;
+    FPM0.addPass(PromotePass());
     for (auto &F : M)
       if (!F.isDeclaration()) {
+        FPM0.run(F, FAM);
+        FAM.invalidate(F, PreservedAnalyses::none());
+        // clang -O0 emits `br i1 true/false` for the repo's `cond ? true : false` macros used as
+        // conditions: fold those terminators (and drop blocks that became unreachable) so that the
+        // CFG only has feasible edges.  Nothing else is simplified.
+        bool Changed = false;
+        for (auto &BB : F)
+          Changed |= ConstantFoldTerminator(&BB, true);
+        if (Changed)
+          removeUnreachableBlocks(F);
         FPM.run(F, FAM);
         FAM.invalidate(F, PreservedAnalyses::none());
       }
